@@ -127,7 +127,7 @@ def run_family(rep, name, programs, item_defaults=None, accept_unsupported_is_vi
                 rep.add(key, "inconclusive", v, r.get("detail", ""))
         elif v == "harness-error":
             rep.harness_error(f"{key}: {r.get('detail')} model={r.get('model')}")
-        elif wfp:
+        elif wfp and "operand table conflict" not in str(r.get("detail", "")):
             # the value question is open (model gap / solver), but the emitted text is ill-formed whatever it means
             for cl in sorted({p[0] for p in wfp}):
                 rep.add(key, "violation", cl, " ; ".join(p[1] for p in wfp if p[0] == cl)[:300], **extra)
